@@ -7,7 +7,7 @@ from enum import Enum
 from qbee import grammar
 from qbee.exceptions import SyntaxError as QbSyntaxError
 from pyparsing.exceptions import ParseException
-from .instrs import op_code_to_instr
+from .instrs import op_code_to_instr, op_to_instr
 from .utils import format_number
 from .cell import CellType, CellValue, Reference
 from .trap import TrapCode, Trapped
@@ -148,6 +148,14 @@ class CallFrame(MemorySegment):
         # also for debugging purposes
         self.ret_addr = ret_addr
 
+        # depth of the operand stack right after the frame was entered
+        # (set by the FRAME instruction) and number of GOSUBs active in
+        # this frame: between statements the stack is exactly that
+        # deep, which lets an error handler discard the partial
+        # results of the failed statement.
+        self.stack_base = 0
+        self.gosubs = 0
+
     def set_temp_reference(self, idx, value):
         # get a non reference value, create a temporary cell for it,
         # and then store a reference to it in the given index.
@@ -228,6 +236,7 @@ class QvmCpu:
         self.last_trap = None
         self.last_trap_kwargs = {}
         self.trap_target = None
+        self.trap_frame = None
         self.error_handler_active = False
         self.trapped_addr = 0
 
@@ -423,6 +432,7 @@ class QvmCpu:
 
         if not self.error_handler_active and \
            self.trap_target is not None:
+            self._discard_failed_statement()
             if self.trap_target == 'next':
                 try:
                     self._exec_errresn()
@@ -514,6 +524,25 @@ class QvmCpu:
 
         self.halted = True
         self.halt_reason = HaltReason.TRAP
+
+    def _discard_failed_statement(self):
+        """Called when a trap is about to be handled by the program:
+        nothing of the failed statement may remain. With a handler
+        (ON ERROR GOTO) control continues in the routine that armed
+        it, so activations entered since are abandoned; the operand
+        stack goes back to the depth it has between statements."""
+        frame = self.cur_frame
+        if self.trap_target != 'next' and self.trap_frame is not None:
+            f = frame
+            while f is not None and f is not self.trap_frame:
+                f = f.prev_frame
+            if f is not None:
+                frame = f
+                self.cur_frame = f
+        if frame is not None:
+            depth = frame.stack_base + frame.gosubs
+            if len(self.stack) > depth:
+                del self.stack[depth:]
 
     def push(self, value_type, value):
         logger.info(
@@ -672,6 +701,10 @@ class QvmCpu:
     def _exec_call(self, target):
         self.push(CellType.LONG, self.pc)
         self.pc = target
+        if self.cur_frame is not None and \
+           self.module.code[target] != op_to_instr['frame'].op_code:
+            # a GOSUB (procedure calls go to a FRAME instruction)
+            self.cur_frame.gosubs += 1
 
     def _exec_chr(self):
         char_code = self.pop(CellType.INTEGER)
@@ -784,6 +817,8 @@ class QvmCpu:
             self.trap_target = 'next'
         else:
             self.trap_target = target
+        # the handler's code belongs to the routine that armed it
+        self.trap_frame = self.cur_frame
 
     def _exec_errres(self):
         # RESUME
@@ -868,6 +903,7 @@ class QvmCpu:
 
         # push back return address
         self.push(CellType.LONG, ret_addr)
+        frame.stack_base = len(self.stack)
 
     def _exec_ge(self):
         value = self.pop()
@@ -921,6 +957,8 @@ class QvmCpu:
     def _exec_ijmp(self):
         target = self.pop(CellType.LONG)
         self.pc = target
+        if self.cur_frame is not None and self.cur_frame.gosubs > 0:
+            self.cur_frame.gosubs -= 1
 
     def _exec_imp(self):
         self._bitwise(lambda a, b: (~a | b))
